@@ -112,6 +112,9 @@ def run_check(pid, cfg, tier, seed, work, t0):
             n = r[tier] if tier in r else r["quick"]
             # corpus first
             for cf in sorted(glob.glob(os.path.join(C.VERIF, "corpus", engine, "*.ops"))):
+                restrict = [l for l in open(cf) if l.startswith("# props=")]
+                if restrict and pid not in restrict[0].strip()[len("# props="):].split(","):
+                    continue
                 lines = [l.rstrip("\n") for l in open(cf) if l.strip() and not l.startswith(("#", "T ", "E"))]
                 res, text = C.replay_ops(engine, lines, work, "corpus")
                 evals += 1
